@@ -35,13 +35,52 @@ theorem rows_ok : Generated.rows.all (Row.ok Generated.tables) = true :=
 /-- every observed `ignored` is a listed known finding -/
 theorem rows_known_chunks :
     Generated.rowChunks.all (fun c => c.all
-      (Row.ignoredKnown Generated.knownIgnoredPositions Generated.knownIgnoredPairs)) = true := by
+      (Row.ignoredKnown Generated.knownIgnoredPairs)) = true := by
   decide +kernel
 
 theorem rows_known :
-    Generated.rows.all
-      (Row.ignoredKnown Generated.knownIgnoredPositions Generated.knownIgnoredPairs) = true :=
+    Generated.rows.all (Row.ignoredKnown Generated.knownIgnoredPairs) = true :=
   chunks_all _ _ rows_known_chunks
+
+/-- what is left of the list of ignored names, by name: `$ne` and `$nin` in a condition whose
+    path reaches no value -/
+theorem known_ignored_pairs_named :
+    Generated.knownIgnoredPairs.all (fun p =>
+      decide (p.1 = .queryFieldDeadEnd) && (p.2 == cNe || p.2 == cNin)) = true := by
+  decide +kernel
+
+theorem known_ignored_pairs_are_ne_nin (p : Position × Code)
+    (hp : p ∈ Generated.knownIgnoredPairs) :
+    p.1 = .queryFieldDeadEnd ∧ (p.2 = cNe ∨ p.2 = cNin) := by
+  have := List.all_eq_true.mp known_ignored_pairs_named p hp
+  simpa using this
+
+/-- the structure over the REGENERATED tables: the pre-check of an update lets through only
+    what the operator loop has a branch for, and `LOGICAL_OPERATOR_MAP` has no constant
+    connective but `$not` -/
+theorem update_precheck_within_loop_tbl :
+    Generated.tables.updateChecked.all (fun k =>
+      Generated.tables.updaters.contains k || Generated.tables.updateInline.contains k) = true := by
+  decide +kernel
+
+theorem logical_const_is_not_tbl :
+    Generated.tables.logicalConst.all (fun k => k == cNot) = true := by
+  decide +kernel
+
+/-- over the regenerated tables the dispatch structure ignores NO name but `$ne` / `$nin` in a
+    condition whose path reaches no value — for every name, probed or not -/
+theorem generated_dispatch_ignores_only_ne_nin (pos : Position) (k : Code)
+    (h : dispatch Generated.tables pos k = .ignored) :
+    pos = .queryFieldDeadEnd ∧ (k = cNe ∨ k = cNin) := by
+  rcases ignored_only_structurally Generated.tables pos k h with h1 | h1 | h1
+  · have := List.all_eq_true.mp logical_const_is_not_tbl k h1.1
+    exact absurd (by simpa using this) h1.2.2.1
+  · exact h1
+  · have := List.all_eq_true.mp update_precheck_within_loop_tbl k h1.2.1
+    simp only [Bool.or_eq_true, List.contains_eq_mem, decide_eq_true_eq] at this
+    rcases this with h2 | h2
+    · exact absurd h2 h1.2.2.1
+    · exact absurd h2 h1.2.2.2
 
 /-- the full statement fails on the table: some entry is observed `ignored` -/
 theorem some_entry_ignored :
